@@ -314,3 +314,248 @@ Lemma ex_h_arrivals_reset :
   h_arrivals ex_cfg [1] ex_reset 1 1 1 0 = [(mkCommit 60 2 100000, 40)] /\
   h_ginfo ex_cfg [1] ex_reset 1 1 = Some (100000, [1]).
 Proof. split; vm_compute; reflexivity. Qed.
+
+(* ================================================================================================ *)
+(* audit A (C01) strengthening: latest in the log; provenance of every stored entry; in-order commits are stored *)
+(* ================================================================================================ *)
+
+Lemma last_readout_new_ring n : last (readout (new_ring n)) (@None coff) = None.
+Proof. unfold readout, new_ring. rewrite last_rev_hd. destruct n; reflexivity. Qed.
+
+Lemma ring_run_nil md n : ring_run md n [] = new_ring n.
+Proof. reflexivity. Qed.
+
+(* ---- (1) the newest slot of a reported window is the commit latest in the log ---- *)
+(* For every partition of every FetchConsumer reply: if the newest slot holds k, then k's log position is the greatest
+   among the commits of that partition that reached the ring since it was last removed ([arrivals]) and is the position
+   of one of them; if the newest slot is empty, no commit has reached the ring. *)
+Theorem reply_newest_is_latest cf cls h st reps now c g st' l t cps i cp :
+  (1 <= cf_intervals cf)%nat -> wf_hist h ->
+  run cf (init_state cls) h = Some (st, reps) ->
+  fetch_consumer cf now st c g = Done st' (RConsumer l) ->
+  In (t, cps) l -> nth_error cps i = Some cp ->
+  let arr := arrivals cf cls h c g t (Z.of_nat i) in
+  match last (cp_offsets cp) None with
+  | Some k => (exists cl, In cl arr /\ cm_order (fst cl) = co_order k) /\
+              (forall cl, In cl arr -> cm_order (fst cl) <= co_order k)
+  | None => arr = []
+  end.
+Proof.
+  intros HN Hwf Hrun Hf Hin Hi arr.
+  destruct (fetch_reply_hist _ _ _ _ _ _ _ _ _ _ _ _ _ _ HN Hwf Hrun Hf Hin Hi) as (cl & pr & Hc & Hpr & Hm).
+  assert (Hro : cp_offsets cp = [] \/ cp_offsets cp = readout (ring_run (cf_min_distance cf) (cf_intervals cf) arr)).
+  { destruct (storage_reply_windows cf cls h st reps now c g st' l t cps i cp HN Hwf Hrun Hf Hin Hi) as [H|[H _]]; auto. }
+  assert (Hnoring : cp_offsets cp = [] -> arr = []).
+  { intros He. destruct (pr_ring pr) as [w|] eqn:Ew.
+    - destruct Hm as (b & _ & _ & Ho & _). rewrite He in Ho.
+      destruct (storage_windows_wf cf cls h st reps c cl g t i pr w HN Hwf Hrun Hc Hpr Ew) as [(cs & bb & Hs & _ & Hlen) _].
+      unfold shape in Hs. subst w. symmetry in Ho. apply (f_equal (@length _)) in Ho.
+      rewrite rev_length, app_length, map_length, repeat_length in Ho. cbn in Ho. lia.
+    - pose proof (storage_ring_provenance cf cls h st reps c g t (Z.of_nat i) HN Hwf ltac:(lia) Hrun) as Hp.
+      fold arr in Hp. unfold ring_of, ring_at in Hp. rewrite Hc, Nat2Z.id, Hpr, Ew in Hp.
+      destruct arr as [|a arr'] eqn:Earr; [reflexivity|]. exfalso.
+      destruct (run_newest_last (cf_min_distance cf) (cf_intervals cf) (a :: arr') HN ltac:(discriminate)) as (k & Hk & _).
+      rewrite <- Hp, last_readout_new_ring in Hk. discriminate. }
+  destruct (last (cp_offsets cp) None) as [k|] eqn:Elast.
+  - destruct Hro as [He|Hro]; [rewrite He in Elast; discriminate|].
+    destruct arr as [|a arr'] eqn:Earr.
+    + rewrite Hro, ring_run_nil, last_readout_new_ring in Elast. discriminate.
+    + destruct (run_newest_last (cf_min_distance cf) (cf_intervals cf) (a :: arr') HN ltac:(discriminate)) as (k' & Hk' & Hex & Hmax).
+      rewrite <- Hro, Elast in Hk'. injection Hk' as <-. split; assumption.
+  - destruct Hro as [He|Hro]; [apply Hnoring; exact He|].
+    destruct arr as [|a arr'] eqn:Earr; [reflexivity|]. exfalso.
+    destruct (run_newest_last (cf_min_distance cf) (cf_intervals cf) (a :: arr') HN ltac:(discriminate)) as (k' & Hk' & _).
+    rewrite <- Hro, Elast in Hk'. discriminate.
+Qed.
+
+(* ---- (2) provenance of every stored entry inside its ring epoch ---- *)
+(* what is known of an entry e of a ring that is ring_run over the arrival list l: it was written by one arrival y of l
+   (same offset and log position); if it carries a lag it is the one attached to y; if it carries none, an arrival
+   before y had a log position at least as high (y arrived out of order) *)
+Definition entry_prov (l : list (commit * Z)) (e : coff) : Prop :=
+  exists l1 y l3, l = l1 ++ y :: l3 /\
+    cm_offset (fst y) = co_offset e /\ cm_order (fst y) = co_order e /\
+    match co_lag e with
+    | Some v => v = snd y
+    | None => exists l1a x l1b, l1 = l1a ++ x :: l1b /\ co_order e <= cm_order (fst x)
+    end.
+
+Lemma entry_prov_snoc l e z : entry_prov l e -> entry_prov (l ++ [z]) e.
+Proof.
+  intros (l1 & y & l3 & -> & H). exists l1, y, (l3 ++ [z]). split; [|exact H]. rewrite <- app_assoc. reflexivity.
+Qed.
+
+Theorem ring_entry_prov md n l : forall e, In (Some e) (ring_run md n l) -> entry_prov l e.
+Proof.
+  induction l as [|[cm lag] l IH] using rev_ind; intros e Hin.
+  - rewrite ring_run_nil in Hin. unfold new_ring in Hin. apply repeat_spec in Hin. discriminate.
+  - rewrite ring_run_snoc in Hin. cbn [fst snd] in Hin.
+    destruct (ring_step md (ring_run md n l) cm lag) as [r' app] eqn:Ers. cbn [fst] in Hin.
+    pose proof (ring_step_cases _ _ _ _ _ _ Ers) as Hc. destruct app.
+    + destruct Hc as (_ & e0 & rest & a' & x & b' & -> & (He1 & He2 & He3) & Er & ->).
+      destruct Hin as [E|Hin].
+      * injection E as <-. exists l, (cm, lag), []. split; [reflexivity|]. cbn [fst snd].
+        rewrite He1, He2, He3. auto.
+      * apply entry_prov_snoc. apply IH. rewrite Er. apply in_app_or in Hin. apply in_or_app. cbn. tauto.
+    + destruct Hc as [->|((nw & Hnw & Hle) & e0 & (He1 & He2 & He3) & How)]; [apply entry_prov_snoc, IH; exact Hin|].
+      destruct (overwrite_In _ _ _ _ How Hin) as [E|Hold]; [|apply entry_prov_snoc, IH; exact Hold].
+      injection E as <-.
+      assert (Hnwin : In (Some nw) (ring_run md n l)).
+      { destruct (ring_run md n l) as [|s r0]; cbn in Hnw; [discriminate|]. subst s. left; reflexivity. }
+      destruct (IH nw Hnwin) as (l1 & y & l3 & El & _ & Hyo & _).
+      exists l, (cm, lag), []. split; [reflexivity|]. cbn [fst snd]. rewrite He1, He2, He3. split; [reflexivity|]. split; [reflexivity|].
+      exists l1, y, l3. split; [exact El|]. rewrite Hyo. lia.
+Qed.
+
+(* every arrival carries the lag the handler attaches: the clamped distance to the last broker offset recorded before it *)
+Lemma last_broker_in_i64 h c t p b : wf_hist h -> last_broker h c t p = Some b -> in_i64 b.
+Proof.
+  induction h as [|[now r] h IH] using rev_ind; [discriminate|]. intros Hwf. apply wf_hist_snoc in Hwf. destruct Hwf as [Hwf Hr].
+  rewrite last_broker_snoc. destruct (is_broker c t p r) as [b0|] eqn:E; [|apply IH; exact Hwf].
+  intros H. injection H as <-. destruct r; cbn in E; try discriminate. cbn in Hr.
+  destruct ((c0 =? c) && (t0 =? t) && (p0 =? p)); [|discriminate]. injection E as <-. tauto.
+Qed.
+
+Theorem arrivals_lag_spec cf cls h c g t p : forall st reps,
+  wf_hist h -> run cf (init_state cls) h = Some (st, reps) ->
+  forall y, In y (arrivals cf cls h c g t p) ->
+  exists h1 now rest b,
+    h = h1 ++ (now, SetConsumerOffset c g t p (cm_offset (fst y)) (cm_order (fst y)) (cm_ts (fst y))) :: rest /\
+    last_broker h1 c t p = Some b /\
+    snd y = Z.max 0 (b - cm_offset (fst y)) /\ 0 <= snd y < two64.
+Proof.
+  induction h as [|[now r] h IH] using rev_ind; intros st reps Hwf Hrun y Hin.
+  - unfold arrivals in Hin. cbn in Hin. contradiction.
+  - apply wf_hist_snoc in Hwf. destruct Hwf as [Hwf Hr]. cbn [snd] in Hr.
+    rewrite run_snoc in Hrun. destruct (run cf (init_state cls) h) as [[st1 r1]|] eqn:Hrun1; [|discriminate].
+    destruct (step cf now st1 r) as [st2 rep|] eqn:Hstep; [|discriminate].
+    assert (Hold : In y (arrivals cf cls h c g t p) -> exists h1 now0 rest b,
+              h ++ [(now, r)] = h1 ++ (now0, SetConsumerOffset c g t p (cm_offset (fst y)) (cm_order (fst y)) (cm_ts (fst y))) :: rest /\
+              last_broker h1 c t p = Some b /\ snd y = Z.max 0 (b - cm_offset (fst y)) /\ 0 <= snd y < two64).
+    { intros H. destruct (IH st1 r1 Hwf eq_refl y H) as (h1 & now0 & rest & b & -> & Hrest).
+      exists h1, now0, (rest ++ [(now, r)]), b. split; [rewrite <- app_assoc; reflexivity|exact Hrest]. }
+    unfold arrivals in Hin. rewrite arrivals_from_snoc, Hrun1, Hstep in Hin. fold (arrivals cf cls h c g t p) in Hin.
+    unfold next_arrivals in Hin. destruct (is_commit_for c g t p r) as [[[off order] ts]|] eqn:Eic.
+    + apply is_commit_for_some in Eic. subst r. cbn in Hr.
+      rewrite (reaches_ring_history cf cls h st1 r1 now c g t p ts Hrun1) in Hin.
+      destruct (in_cls c cls && negb (too_old cf now ts) && cf_accept cf g && (0 <=? p) && broker_known h c t p); [|auto].
+      destruct (last_broker h c t p) as [boff|] eqn:Elb; [|auto].
+      apply in_app_or in Hin. destruct Hin as [Hin|[<-|[]]]; [auto|]. cbn [fst snd cm_offset cm_order cm_ts].
+      exists h, now, [], boff. split; [reflexivity|]. split; [exact Elb|].
+      apply commit_lag_spec; [eapply last_broker_in_i64; eauto|exact Hr].
+    + destruct (resets cf now st1 c g t r); [contradiction|auto].
+Qed.
+
+(* C01, second sentence, at full strength on the reply: every reported commit e was written by an arrival y of its ring
+   epoch with the same offset and log position; y is a SetConsumerOffset of the history whose attached lag is the clamped
+   distance to the broker offset known at that arrival; e's lag, when present, is exactly that value; when absent, an
+   arrival of the same epoch before y had a log position at least as high (so y did arrive out of order). *)
+Theorem stored_lag_exact_strong cf cls h st reps now c g st' l t cps i cp e :
+  (1 <= cf_intervals cf)%nat -> wf_hist h ->
+  run cf (init_state cls) h = Some (st, reps) ->
+  fetch_consumer cf now st c g = Done st' (RConsumer l) ->
+  In (t, cps) l -> nth_error cps i = Some cp -> In (Some e) (cp_offsets cp) ->
+  exists l1 y l3,
+    arrivals cf cls h c g t (Z.of_nat i) = l1 ++ y :: l3 /\
+    cm_offset (fst y) = co_offset e /\ cm_order (fst y) = co_order e /\
+    (exists h1 now' rest b,
+       h = h1 ++ (now', SetConsumerOffset c g t (Z.of_nat i) (co_offset e) (co_order e) (cm_ts (fst y))) :: rest /\
+       last_broker h1 c t (Z.of_nat i) = Some b /\
+       snd y = Z.max 0 (b - co_offset e) /\ 0 <= snd y < two64) /\
+    match co_lag e with
+    | Some v => v = snd y
+    | None => exists l1a x l1b, l1 = l1a ++ x :: l1b /\ co_order e <= cm_order (fst x)
+    end.
+Proof.
+  intros HN Hwf Hrun Hf Hin Hi He.
+  destruct (storage_reply_windows cf cls h st reps now c g st' l t cps i cp HN Hwf Hrun Hf Hin Hi) as [H0|[Hro _]];
+    [rewrite H0 in He; contradiction|].
+  rewrite Hro in He. unfold readout in He. apply in_rev in He.
+  destruct (ring_entry_prov _ _ _ e He) as (l1 & y & l3 & El & Ho & Hord & Hlag).
+  exists l1, y, l3. split; [exact El|]. split; [exact Ho|]. split; [exact Hord|]. split; [|exact Hlag].
+  assert (Hy : In y (arrivals cf cls h c g t (Z.of_nat i))) by (rewrite El; apply in_or_app; right; left; reflexivity).
+  destruct (arrivals_lag_spec cf cls h c g t (Z.of_nat i) st reps Hwf Hrun y Hy) as (h1 & now' & rest & b & Eh & Hb & Hs & Hr).
+  exists h1, now', rest, b. rewrite <- Ho, <- Hord. auto.
+Qed.
+
+(* ---- (3) an in-order commit IS stored, with its lag ---- *)
+Lemma wf_find_place_append n r order :
+  wf n r -> (hd None r = None -> (1 <= n)%nat) ->
+  (forall nw, hd None r = Some nw -> co_order nw < order) ->
+  find_place r order = PAppend.
+Proof.
+  intros (cs & b & Hs & Hd & Hlen) Hn Hnew. unfold shape in Hs. subst r. destruct cs as [|nw cs1].
+  - cbn [map app] in *. destruct b as [|b]; [cbn in Hlen; specialize (Hn eq_refl); lia|]. reflexivity.
+  - rewrite find_place_cons. specialize (Hnew nw eq_refl).
+    pose proof (desc_last_le nw cs1 Hd) as Hl. fold d0 in Hl.
+    destruct b; [destruct (order <=? co_order (last (nw :: cs1) d0)) eqn:E1; [lia|]|];
+      (destruct (order <=? co_order nw) eqn:E2; [lia|reflexivity]).
+Qed.
+
+(* A commit for (c,g,t,p) that is not dropped on arrival (reaches_ring = Some b: configured cluster, not too old, accepted
+   group, broker offset b known) and whose log position is above the newest stored one (or the ring is empty) IS stored:
+   after the step the newest slot holds it, with lag = max 0 (b - offset), b = the last recorded broker offset. *)
+Theorem commit_in_order_stored cf cls h st reps now c g t p off order ts st' rep b :
+  (1 <= cf_intervals cf)%nat -> wf_hist h -> in_i64 off ->
+  run cf (init_state cls) h = Some (st, reps) ->
+  step cf now st (SetConsumerOffset c g t p off order ts) = Done st' rep ->
+  reaches_ring cf now st c g t p ts = Some b ->
+  (forall nw, hd None (ring_of cf st c g t p) = Some nw -> co_order nw < order) ->
+  last_broker h c t p = Some b /\
+  exists e, hd None (ring_of cf st' c g t p) = Some e /\
+            co_offset e = off /\ co_order e = order /\
+            co_lag e = Some (Z.max 0 (b - off)) /\ 0 <= Z.max 0 (b - off) < two64.
+Proof.
+  intros HN Hwf Hoff Hrun Hstep Hre Hnew.
+  pose proof (commit_ring_step cf cls h st reps now c g t p off order ts st' rep HN Hwf Hrun Hstep) as Hc.
+  rewrite Hre in Hc. destruct Hc as (Hp0 & Hlb & Hring). split; [exact Hlb|].
+  assert (Hwfr : wf (cf_intervals cf) (ring_of cf st c g t p)).
+  { rewrite (storage_ring_provenance cf cls h st reps c g t p HN Hwf Hp0 Hrun). apply wf_ring_run. }
+  assert (Hfp : find_place (ring_of cf st c g t p) order = PAppend).
+  { eapply wf_find_place_append; [exact Hwfr|intros _; exact HN|exact Hnew]. }
+  unfold ring_step in Hring. cbn [cm_order] in Hring. rewrite Hfp in Hring. cbn [fst] in Hring.
+  assert (Hne : ring_of cf st c g t p <> []).
+  { destruct Hwfr as (cs & bb & Hs & _ & Hlen). unfold shape in Hs. intros E. rewrite E in Hs.
+    symmetry in Hs. apply app_eq_nil in Hs. destruct Hs as [Hm Hrp]. apply map_eq_nil in Hm. subst cs.
+    destruct bb; [cbn in Hlen; lia|discriminate]. }
+  destruct (store_append (cf_min_distance cf) (ring_of cf st c g t p) (mkCommit off order ts) (Some (commit_lag b off)) Hne)
+    as (e & rest & a' & x & b' & Es & (He1 & He2 & He3) & _).
+  rewrite Es in Hring. exists e. rewrite Hring. cbn [hd]. cbn in He1, He2.
+  destruct (commit_lag_spec b off (last_broker_in_i64 h c t p b Hwf Hlb) Hoff) as [E Hr].
+  split; [reflexivity|]. split; [exact He1|]. split; [exact He2|]. rewrite He3, E. split; [reflexivity|]. rewrite <- E. exact Hr.
+Qed.
+
+(* non-vacuity of (2): in the out-of-order history the entry at log position 3 has no lag and the arrival at position 5 precedes it *)
+Lemma ex_entry_prov_ooo :
+  entry_prov (arrivals ex_cfg [1] ex_ooo 1 1 1 0) (mkCoff 40 3 99000 None) /\
+  entry_prov (arrivals ex_cfg [1] ex_ooo 1 1 1 0) (mkCoff 50 5 100000 (Some 50)).
+Proof.
+  rewrite ex_arrivals_ooo. split.
+  - exists [(mkCommit 50 5 100000, 50)], (mkCommit 40 3 99000, 60), []. cbn. repeat split.
+    exists [], (mkCommit 50 5 100000, 50), []. cbn. split; [reflexivity|lia].
+  - exists [], (mkCommit 50 5 100000, 50), [(mkCommit 40 3 99000, 60)]. cbn. repeat split.
+Qed.
+
+(* (1) composed with C01's current lag: the commit the current lag is computed from is the latest in the offsets log *)
+Theorem current_lag_latest_in_log cf cls h st reps now c g st' l t cps i cp :
+  (1 <= cf_intervals cf)%nat -> wf_hist h ->
+  run cf (init_state cls) h = Some (st, reps) ->
+  fetch_consumer cf now st c g = Done st' (RConsumer l) ->
+  In (t, cps) l -> nth_error cps i = Some cp ->
+  let arr := arrivals cf cls h c g t (Z.of_nat i) in
+  match last (cp_offsets cp) None with
+  | Some k => (exists b, last_broker h c t (Z.of_nat i) = Some b /\
+                         cp_lag cp = Z.max 0 (b - co_offset k) /\ 0 <= cp_lag cp < two64) /\
+              (exists cl, In cl arr /\ cm_order (fst cl) = co_order k) /\
+              (forall cl, In cl arr -> cm_order (fst cl) <= co_order k)
+  | None => cp_lag cp = 0 /\ arr = []
+  end.
+Proof.
+  intros HN Hwf Hrun Hf Hin Hi arr.
+  pose proof (current_lag_exact cf cls h st reps now c g st' l t cps i cp HN Hwf Hrun Hf Hin Hi) as H1.
+  pose proof (reply_newest_is_latest cf cls h st reps now c g st' l t cps i cp HN Hwf Hrun Hf Hin Hi) as H2.
+  cbv zeta in H2. fold arr in H2.
+  destruct (last (cp_offsets cp) None) as [k|].
+  - destruct H1 as (b & Hb & _ & Hl & Hr). destruct H2 as [Hex Hmax]. split; [exists b; auto|]. split; assumption.
+  - split; assumption.
+Qed.
